@@ -84,31 +84,51 @@ CLAIMED['C11'] = dict(
     technique='Lean 4 proof over translator-regenerated cloning functions + per-run observation of object identity')
 
 CLAIMED['C04'] = dict(
-    text='Lean theorems over the tables regenerated from passes.py on every run: every constant-folding rule is '
-         'sound at every width (both-constant & | ^ n, ~; the one-constant 1-bit decision table const/wire/inverter '
-         'kernel-checked in full), CSE reorders arguments only of ops that are commutative in the documented semantics, '
-         'table consistency. Whole-pass preservation (each pass and optimize, on word-level / synthesized / NAND / AIG '
-         'blocks, repeated application, I/O kept, result well-formed, eliminated registers started at their settled '
-         'constant) is decided by evaluating both netlists in the Lean Spec model. PARTIAL: the netlist-level '
-         'refinement theorems (wire/slice elision, dead-logic removal, CSE merge) are not yet proved.',
+    text='Lean theorems. Netlist level, every run: the three alias-eliminating passes of optimize() (_remove_wire_nets, '
+         '_remove_slice_nets, every round of common_subexp_elimination) are instances of one transformation (Model/Pass/Alias.lean: '
+         'a set of nets is removed and every reader of a removed destination reads a replacement wire); a certificate is justified '
+         '(decidable certOk) when each removed net is an equal-width w net, an all-bits-in-order select, or has the same op, '
+         'destination width and arguments (same wires or equal constants; two arguments of a commutative op possibly swapped) as a '
+         'kept net. alias_elimination_run_eq: a justified elimination preserves every Output and every kept wire in every cycle of '
+         'every run from every initial state whose run is in range, and the register/memory state after every cycle is equal '
+         '(alias_elimination_state_eq); proved through chains of aliases by induction along the dependency order and by uniqueness of '
+         'the consistent valuation. TIE: on every run each call of those three functions inside optimize()/CSE is intercepted, the '
+         'certificate is derived from the block before and after the call, the driver evaluates certOk/schedsOkB and '
+         'Alias.applyCert must equal the real result net for net. Over the tables regenerated from passes.py: every '
+         'constant-folding rule is sound at every width, CSE reorders arguments only of commutative ops, table consistency. '
+         'PARTIAL: constant propagation and dead-logic removal have value-level theorems and the Spec-model oracle only. '
+         'Whole-pass preservation (each pass and optimize, on word-level / synthesized / NAND / AIG blocks, repeated application, '
+         'I/O kept, result well-formed, eliminated registers started at their settled constant) is also decided by evaluating '
+         'both netlists in the Lean Spec model.',
     design='4 C04',
-    note=NOTE_COMMON + 'hash()-based argument sort of CSE is modelled as an arbitrary order.',
-    technique='Lean 4 proof over translator-regenerated folding tables + netlist evaluation in the Lean Spec model')
+    note=NOTE_COMMON + 'The certificate derivation (checks/c04.py _derive_cert) is untrusted: Lean checks the certificate and the result is compared with the real output.',
+    technique='Lean 4 proof (netlist-level refinement via uniqueness of the consistent valuation, induction along the dependency '
+              'order; translator-regenerated folding tables) + certificate-checked structural correspondence per pass call + netlist '
+              'evaluation in the Lean Spec model')
 
 CLAIMED['C09'] = dict(
-    text='Lean theorems: the NAND and AND-inverter rewrite rules (regenerated from passes.py on every run) compute the '
-         'gate they replace for all inputs and cover every post-synthesis op; the chain of 2-operand concats equals the '
-         'n-operand concat at every width; concatenated single-bit selects equal any select (repeats/strides/reversals); '
-         'the fan-out tree of a wire of fan-out n has n leaves all carrying its value with binary branching; truncation '
-         'through a removed w net composes. Netlist level: a gadget over fresh wires that recomputes a net may replace it '
-         'anywhere in any schedule without changing any other wire (local_rewrite_preserves), instantiated for the '
-         'nand_synth AND rewrite at every width (nand_synth_and_netlist). Whole-pass behaviour, sanity_check, I/O preservation and each stated '
-         'postcondition are decided on the real result for every single pass and random sequences, by evaluating source '
-         'and result in the Lean Spec model.',
+    text='Lean theorems at the level of whole netlists and whole runs: for nand_synth, and_inverter_synth, two_way_concat and '
+         'one_bit_selects the block after the pass (Model/Pass/LowerNet.lean: every net kept or replaced by its gadget over '
+         'fresh temporaries) shows, under the lowered schedule, in every cycle of every run from every initial state and for '
+         'every input history, the value of the original block on every original wire, and the register/memory state after '
+         'every cycle is equal (nand_synth_run_eq, and_inverter_synth_run_eq, two_way_concat_run_eq, one_bit_selects_run_eq, '
+         'lowering_state_eq; generic theorem lower_run_preserves for any sound rule; gadget soundness from arbitrary valuations: '
+         'gates by testBit extensionality at any width, the 2-way concat chain by congruence modulo the running width, one-bit '
+         'selects for every index tuple). direct_connect_outputs (Model/Pass/Dco.lean: rounds to a fixpoint) preserves every '
+         'Output in every cycle of every run (direct_connect_outputs_run_eq; uses Dco.comb_trunc: truncating the documented '
+         'result of any primitive is the primitive at the narrower width). Postconditions of all five passes are theorems '
+         '(…_post). The model passes are tied STRUCTURALLY to the code: on every run the real pass output must equal the model '
+         'output net for net up to the names of temporaries, and the decidable hypotheses of the theorems (wfB, chainOkB, '
+         'isTopo of the lowered schedule) are evaluated on every tested block. Value-level theorems as before (gate rules '
+         'regenerated from passes.py, concat/select/fan-out tree). PARTIAL: two_way_fanout has the tree lemma and the '
+         'Spec-model oracle only; that the lowered schedule is a dependency order is checked per block, not proved. '
+         'Behaviour, sanity_check, I/O preservation and postconditions of every pass and random pass sequences are also '
+         'decided on the real result in the Lean Spec model.',
     design='4 C09',
-    note=NOTE_COMMON + 'net_transform plumbing (wire replacement, temp naming) is exercised, not modelled.',
-    technique='Lean 4 proof (decide over Bool for gate rules; induction for concat/select/tree) + netlist evaluation in the Lean Spec model')
-
+    note=NOTE_COMMON + 'The hand-written pass models are compared with the real pass output on every run (checks/c09.py model_tie, dco_tie).',
+    technique='Lean 4 proof (netlist-level refinement by induction over schedules and runs, uniqueness of the consistent valuation, '
+              'testBit extensionality, modular arithmetic; decide over Bool for gate rules) + structural correspondence of the pass '
+              'models + netlist evaluation in the Lean Spec model')
 CLAIMED['C10'] = dict(
     text='Lean theorems over sanity_check_net as regenerated from core.py on every run (31 rules): every listed '
          'net-level fault class (foreign wire, Input/Const destination, Output argument, illegal op, wrong arity for '
